@@ -464,6 +464,31 @@ func (fr *Frame) callDynamic(fv Term, c *ssa.CallCommon, args []Term, st *State,
 		}
 		cands = append(cands, nil)
 	}
+	if fr.completeCandidates(c.Value) && len(branches) > 0 {
+		// the function value is read from a local variable that only ever holds known closures/functions
+		if len(branches) == 1 {
+			return branches[0].res, branches[0].st
+		}
+		var inc []inEdge
+		for _, b := range branches {
+			inc = append(inc, inEdge{nil, b.st, nil})
+		}
+		merged := fr.mergeStates(inc)
+		n := sig.Results().Len()
+		outRes := make([]Term, n)
+		for i := 0; i < n; i++ {
+			var t Term
+			for k := len(branches) - 1; k >= 0; k-- {
+				if k == len(branches)-1 {
+					t = branches[k].res[i]
+				} else {
+					t = Ite(branches[k].st.pc, branches[k].res[i], t)
+				}
+			}
+			outRes[i] = u.define("dyn.ret", t)
+		}
+		return outRes, merged
+	}
 	// the function value may be none of the known closures
 	other := st.clone()
 	other.pc = u.define("pc", And(append([]Term{st.pc}, notAny...)...))
@@ -963,4 +988,55 @@ func smallVarargs(c *ssa.CallCommon) (int, bool) {
 		return 0, false
 	}
 	return int(at.Len()), true
+}
+
+// completeCandidates: v is loaded from a non-escaping local variable all of whose assignments store closures or
+// plain functions created in this function, so a dynamic call through it can only reach those.
+func (fr *Frame) completeCandidates(v ssa.Value) bool {
+	ld, ok := v.(*ssa.UnOp)
+	if !ok || ld.Op != token.MUL {
+		return false
+	}
+	var al *ssa.Alloc
+	switch x := ld.X.(type) {
+	case *ssa.Alloc:
+		al = x
+	case *ssa.FreeVar:
+		// captured variable of an enclosing function: find the Alloc bound at the MakeClosure
+		if fr.mc == nil {
+			return false
+		}
+		for i, fv := range fr.fn.FreeVars {
+			if fv == x && i < len(fr.mc.Bindings) {
+				if a, ok := fr.mc.Bindings[i].(*ssa.Alloc); ok {
+					al = a
+				}
+			}
+		}
+	}
+	if al == nil || fr.u.allocEscapes(al) {
+		return false
+	}
+	return storesOnlyFuncs(al, 0)
+}
+
+func storesOnlyFuncs(al *ssa.Alloc, depth int) bool {
+	refs := al.Referrers()
+	if refs == nil {
+		return false
+	}
+	n := 0
+	for _, r := range *refs {
+		st, ok := r.(*ssa.Store)
+		if !ok || st.Addr != al {
+			continue
+		}
+		switch st.Val.(type) {
+		case *ssa.MakeClosure, *ssa.Function:
+			n++
+		default:
+			return false
+		}
+	}
+	return n > 0
 }
